@@ -247,11 +247,13 @@ theorem applyRes_sim (cfg : Cfg) {pol : Policy} (hp : TimeIndep pol) (step : Nat
         · exact ⟨h.st, by simp [List.map_append, h.cmds, cE], h.out, h.still, h.exec⟩
         · exact ⟨⟨rfl, h.st.2⟩, by simp [List.map_append, h.cmds, cE], h.out, h.still, h.exec⟩
   | addCollected buf ev =>
-    simp only [applyRes, hs.collected, e3, e2]
+    simp only [applyRes, hs.collected, e3, e2, h.still]
+    split
+    · exact h
     split
     · refine ⟨h.st.set step ⟨hs.queue, rfl, hs.waiters, hs.inProg⟩, by simp [List.map_append, h.cmds, cE], h.out, rfl, ?_⟩
       simp only [ipE, InProg.mk.injEq, e1, e2, e4, e5, e6, e7, e8, and_self]
-    · exact ⟨h.st.set step ⟨hs.queue, rfl, hs.waiters, hs.inProg⟩, h.cmds, h.out, h.still, h.exec⟩
+    · exact ⟨h.st.set step ⟨hs.queue, rfl, hs.waiters, hs.inProg⟩, h.cmds, h.out, rfl, h.exec⟩
   | deleteCollected buf =>
     simp only [applyRes]
     split
